@@ -15,8 +15,8 @@ OPTS = {
     'mapping_partitioning': ['PARTIAL-AGGREGATIONS', 'partial-aggregations', 'MAXIMAL', 'maximal', 'NO', 'no', 'false', 'OFF', '0', 'yes', 'TRUE', '', 'partial', 'Maximal', 'none'],
     'output_dir': ['', 'outd', 'a/b'],
     'output_file': ['', 'kg', 'out/kg', 'kg.nt', 'kg.tar.gz', 'a.b/c', '.hidden', 'x.y.z', 'KG'],
-    'na_values': ['', ',nan', 'NULL', 'a,b,a', 'x, y', ',', 'nan,,N/A'],
-    'safe_percent_encoding': ['', ':/', '/', '-._~', ':/?#'],
+    'na_values': ['', ',nan', 'NULL', 'a,b,a', 'x, y', ',', 'nan,,N/A', '$$,NULL', '$', 'US$,x'],
+    'safe_percent_encoding': ['', ':/', '/', '-._~', ':/?#', '$$', '/$$:', '$/'],
     'only_printable_chars': ['yes', 'no', 'true', 'False', 'ON', 'off', '1', '0', '', 'maybe', 'y'],
     'infer_sql_datatypes': ['yes', 'no', '', 'TRUE', 'nope'],
     'number_of_processes': ['1', '2', '', '04', 'two'],
@@ -33,6 +33,18 @@ def gen_config(rng):
         name = k if rng.random() < 0.8 else rng.choice([k.upper(), k.title()])
         m[name] = v
     return m
+
+
+def interpolate(v):
+    """the INI reader's value interpolation (ExtendedInterpolation) on values without ${...} references: $$ is a dollar sign, a lone $ is an error"""
+    out, i = '', 0
+    while i < len(v):
+        if v[i] == '$':
+            if v[i + 1:i + 2] == '$':
+                out += '$'; i += 2; continue
+            return None
+        out += v[i]; i += 1
+    return out
 
 
 def ini_text(m, with_source=False):
@@ -56,7 +68,7 @@ def run(ctx, res):
         jobs.append({'fn': 'config_probe', 'args': {'text': ini_text(m)}})
         jobs.append({'fn': 'config_probe', 'args': {'text': ini_text(m), 'as_file': os.path.join(wd, 'cfg%d.ini' % i)}})
     out = ctx.pool.map(jobs, timeout=120)
-    mres = ctx.model.run_many([['config.load', [[k.lower(), v.strip()] for k, v in m.items()], 'g1'] for m in cfgs])
+    mres = ctx.model.run_many([['config.load', [[k.lower(), (interpolate(v) or '').strip()] for k, v in m.items()], 'g1'] for m in cfgs])
     for i, (m, mr) in enumerate(zip(cfgs, mres)):
         a, b = out[2 * i], out[2 * i + 1]
         res.evaluations += 1
@@ -67,6 +79,11 @@ def run(ctx, res):
         ra, rb = a['result'], b['result']
         if ra != rb:
             res.violations.append({'key': None, 'sig': 'file-vs-string', 'what': 'the same configuration behaves differently as a string and as a file: %s vs %s' % (str(ra)[:300], str(rb)[:300]), 'replay': {'options': m}})
+            continue
+        if any(interpolate(v) is None for v in m.values()):
+            res.count('load:lone-dollar')
+            if 'exc' not in ra:
+                res.violations.append({'key': None, 'sig': 'lone-dollar', 'what': 'a value with a lone $ (an interpolation syntax error of the INI format) is accepted: %s' % str(ra)[:300], 'replay': {'options': m}})
             continue
         if 'exc' in ra:
             I = ('exc', ra['exc'])
@@ -98,6 +115,18 @@ def run(ctx, res):
         c['cfg']['printable'] = ctx.rng.random() < 0.5
         c['cfg']['nquads'] = ctx.rng.random() < 0.5
         cases.append(c)
+    # safe_percent_encoding applies to every IRI position, the graph included
+    def tmx(k, v, ck='iri', tt=''):
+        return {'k': k, 'v': v, 'ck': ck, 'tt': tt}
+    EXN = mapcase.EX
+    for _ in range(ctx.scale(10, 80)):
+        vals = ['a/b', 'x:y', 'é/ü', 'p q', 'a-b.c', 'k?q#f', 'plain']
+        rows = [[str(i + 1), ctx.rng.choice(vals), ctx.rng.choice(vals)] for i in range(ctx.rng.choice([2, 3, 5]))]
+        g = [tmx('templ', EXN + 'g/{v}')]
+        doc = [{'id': EXN + 'tm/T', 'src': 'S0', 'nonasserted': False, 'subj': tmx('templ', EXN + 'r/{id}/{w}'), 'sjoins': [], 'classes': [], 'sgraphs': g if ctx.rng.random() < 0.5 else [],
+                'poms': [{'preds': [tmx('const', EXN + 'p/p')], 'objs': [{'m': ctx.rng.choice([tmx('templ', EXN + 'o/{v}'), tmx('ref', 'v')]), 'lang': None, 'dt': None, 'joins': []}], 'graphs': g}]}]
+        cases.append({'cfg': {'nquads': True, 'mode': ctx.rng.choice(['NO', 'PARTIAL-AGGREGATIONS', 'MAXIMAL']), 'safe': ctx.rng.choice([':/', '/', '-._~:', ':/?#']), 'printable': False},
+                      'sources': [{'key': 'S0', 'kind': 'csv', 'cols': ['id', 'v', 'w'], 'rows': rows}], 'doc': doc})
     for rec in batch.run(cases):
         family.judge(res, rec, known)
     # file named by the mapping vs by the file_path option
